@@ -233,7 +233,11 @@ def gen_problem(rng, n=None, m=None):
 
 
 SIGMA_FNS = {'psi', 'grad_psi', 'psi_grad_psi', 'calc', 'hess_psi_prod', 'hess_psi'}
-ROUTES = ['ct', 'cnt', 'rt', 'dl', 'fun']
+ROUTES = ['ct', 'cnt', 'rt', 'dl', 'fun', 'cter', 'ctedl']
+# functions whose provider is handed work vectors (work_n ∈ ℝⁿ, work_m ∈ ℝᵐ)
+WORK_FNS = ['grad_L', 'grad_psi', 'psi_grad_psi']
+# routes on which a wrapper of the library forwards them to a provider-supplied function
+WORK_ROUTES = ['cnt', 'cter', 'ctedl']
 
 
 def gen_point(rng, p, exact, scalar_sigma):
@@ -299,13 +303,17 @@ def pick_route(rng, masks):
         variant, mask = 'ct', rng.choice(masks)
     elif k < 0.55:
         variant, mask = 'cnt', rng.choice(masks)
-    elif k < 0.75:
+    elif k < 0.68:
         variant, mask = 'rt', rng.getrandbits(NBITS)
-    elif k < 0.92:
+    elif k < 0.80:
         variant, mask = 'dl', rng.getrandbits(NBITS)
+    elif k < 0.87:
+        variant, mask = 'cter', rng.getrandbits(NBITS)
+    elif k < 0.94:
+        variant, mask = 'ctedl', rng.getrandbits(NBITS)
     else:
         variant, mask = 'fun', rng.getrandbits(4) << 7
-    if variant in ('rt', 'dl') and rng.random() < 0.1:
+    if variant in ('rt', 'dl', 'cter', 'ctedl') and rng.random() < 0.1:
         mask = rng.choice([0, (1 << NBITS) - 1, 1 << rng.randrange(NBITS)])
     return variant, mask
 
@@ -316,7 +324,8 @@ def gen_case(rng, masks, force=None):
     m = None
     if 'm0' in force:
         m = 0 if force['m0'] else rng.choice([1, 2, 2, 3, 4])
-    p = gen_problem(rng, m=m)
+    m = force.get('m', m)
+    p = gen_problem(rng, n=force.get('n'), m=m)
     exact = rng.random() < 0.45
     scalar_sigma = force.get('scalar_sigma', rng.random() < 0.3)
     if scalar_sigma and p['m'] == 1 and 'scalar_sigma' in force:
@@ -406,9 +415,21 @@ def mask_for(rng, masks, route, fn, how, m0):
     return rng.choice(cand) if cand else None
 
 
+def required_work_cells():
+    """(route, function, n < m | n > m): a provider-SUPPLIED function that takes work vectors, reached
+    through the counting wrapper (cnt) and the type-erased counting wrapper (cter, ctedl), with n ≠ m"""
+    return [(r, fn, rel) for r in WORK_ROUTES for fn in WORK_FNS for rel in ('n<m', 'n>m')]
+
+
 def gen_prelude(rng, masks):
     """one case per required cell (deterministic in the seed), so that no class depends on luck"""
     ops = []
+    for (route, fn, rel) in required_work_cells():
+        for _ in range(3):
+            n, m = rng.choice([(1, 3), (2, 4), (1, 2), (3, 4)] if rel == 'n<m' else [(3, 1), (4, 2), (2, 1), (4, 3)])
+            mask = mask_for(rng, masks, route, fn, 'supplied', False)
+            if mask is not None:
+                ops += gen_case(rng, masks, dict(variant=route, mask=mask, n=n, m=m, fns=[fn]))
     for (route, fn, how, m0, sg) in required_cells():
         mask = rng.choice(masks if route in ('ct', 'cnt') else [0]) if how == '-' else \
             mask_for(rng, masks, route, fn, how, m0)
@@ -420,6 +441,7 @@ def gen_prelude(rng, masks):
 
 COV = {}          # (route, fn, how, m0, Σ kind) -> evaluations the monitor accepted
 COV_MASKS = {}    # route -> set of masks
+COV_WORK = {}     # (route, fn, 'n<m' | 'n>m') -> supplied evaluations accepted
 COV_SEQ = {'sequences': 0, 'calls_after_the_first': 0}
 EXEMPT = {}       # named exemption -> count
 
@@ -439,7 +461,7 @@ def corpus_ops(masks):
     route, alone and as a later call on a kept object whose previous call had other outputs"""
     rng = random.Random(4)
     ops = []
-    for route in ('ct', 'cnt', 'rt', 'dl', 'fun'):
+    for route in ('ct', 'cnt', 'rt', 'dl', 'fun', 'cter', 'ctedl'):
         for fn in ('gfggp', 'grad_L', 'grad_psi', 'psi_grad_psi', 'psi'):
             ops += gen_case(rng, masks, dict(variant=route, mask=0, m0=True, scalar_sigma=False, fns=[fn]))
         p1, p2 = gen_problem(rng, n=3, m=0), gen_problem(rng, n=3, m=0)
@@ -558,6 +580,9 @@ def monitor_one(op, out, st):
     if d['variant'] == 'fun':
         allowed.discard('proj_diff_g')
     for tg in log:
+        if tg.startswith('WORKERR:'):
+            return (f'{fn}: a provider was handed a work vector of the wrong length / wrote past the end of one '
+                    f'({tg}; work_n must have n = {n}, work_m must have m = {m} elements)')
         if tg not in allowed:
             return f'{fn}: call log contains {tg}, which the problem (mask {mask:#x}) does not supply'
     if fn in FN_SLOT and BITNAMES[FN_SLOT[fn]] in supplied and vals.strip() != 'notimpl':
@@ -671,6 +696,9 @@ def monitor(op, out, st):
                 sigma_kind(d['fn'], d['S'], d['m']))
         COV[cell] = COV.get(cell, 0) + 1
         COV_MASKS.setdefault(d['variant'], set()).add(d['mask'])
+        if cell[2] == 'supplied' and d['fn'] in WORK_FNS and d['n'] != d['m']:
+            wk = (d['variant'], d['fn'], 'n<m' if d['n'] < d['m'] else 'n>m')
+            COV_WORK[wk] = COV_WORK.get(wk, 0) + 1
         if kind == 'sq0':
             COV_SEQ['sequences'] += 1
         elif kind == 'sqn':
@@ -1236,6 +1264,10 @@ def coverage_stage(rep, broken):
     rep.cov['distinct_masks_per_route'] = {k: len(v) for k, v in COV_MASKS.items()}
     rep.cov['one_object_call_sequences'] = dict(COV_SEQ)
     rep.cov['exemptions'] = dict(EXEMPT)
+    wmiss = [c for c in required_work_cells() if COV_WORK.get(c, 0) == 0]
+    rep.cov['work_vector_cells'] = {f'{r}|{fn}|{rel}': k for (r, fn, rel), k in sorted(COV_WORK.items())}
+    if wmiss and not rep.violations:
+        broken.append(f'required coverage: provider-supplied work-vector functions with n ≠ m never evaluated: {wmiss[:6]}')
     if missing and not rep.violations:
         broken.append('required coverage: interface classes never evaluated: ' +
                       '; '.join(map(str, missing[:6])) + (f' … ({len(missing)})' if len(missing) > 6 else ''))
